@@ -82,6 +82,7 @@ def _float(draw, tier):
     c["normalize"] = draw(st.booleans())
     c["threshold"] = draw(st.sampled_from([0.0, 0.5, 1.0]))
     c["compiled"] = draw(st.booleans())
+    c["alias_equal"] = draw(st.booleans())
     return c
 
 
